@@ -277,3 +277,143 @@ Example C14_ex_dup_life :
   live s1 = [1; 0] /\ l_get s1 = Some (0, 1) /\ d = Some (2, 3) /\ live s2 = [3; 2; 1; 0]
   /\ live (l_free_dup d s2) = [1; 0] /\ live (l_detach (l_free_dup d s2)) = [].
 Proof. vm_compute. repeat split. Qed.
+
+(* ===== tie T1: the model uses what the definitions GENERATED from /repo/src/sc_mpi.c and sc_shmem.c compute ================== *)
+(* Gen/ShmemC14.v is regenerated from the working tree on every run (tools/c2g/groups_C14.py); an edit of the arithmetic
+   changes a generated definition and the statements below stop checking.  zn = Z.of_nat, B31 = 2^31. *)
+From Coq Require Import ZArith Lia.
+From ScV Require Import Base.CInt Gen.ShmemC14 C14.ShmemGen.
+Local Open Scope Z_scope.
+
+
+(* processes_per_node < 1 selects the MPI_Comm_split_type branch *)
+Theorem C14_gen_attach_test : forall ppn, attach_split_type_test ppn = (ppn <? 1).
+Proof. exact gen_attach_test. Qed.
+Print Assumptions C14_gen_attach_test.
+
+(* explicit processes_per_node: node = rank / ppn, offset = rank mod ppn; intranode split (colour node, key offset), internode split (colour offset, key node) *)
+Theorem C14_gen_attach_explicit : forall r ppn x y, (0 < ppn)%nat -> zn r < B31 ->
+  ShmemC14.attach_explicit (zn r) (zn ppn) x y =
+  (zn (r / ppn), zn (r mod ppn), zn (r / ppn), zn (r mod ppn), zn (r mod ppn), zn (r / ppn)).
+Proof. exact gen_attach_explicit. Qed.
+Print Assumptions C14_gen_attach_explicit.
+
+(* the model's pair of communicators for an explicit processes_per_node = the classes of the GENERATED colours *)
+Theorem C14_gen_attach_explicit_model : forall P ppn r, (0 < ppn)%nat -> zn P < B31 -> (r < P)%nat ->
+  ShmemModel.attach_explicit P ppn r =
+  mk_nc (filter (fun q => intra_colour ppn q =? intra_colour ppn r)%nat (seq 0 P))
+        (filter (fun q => inter_colour ppn q =? inter_colour ppn r)%nat (seq 0 P)).
+Proof. exact gen_attach_explicit_model. Qed.
+Print Assumptions C14_gen_attach_explicit_model.
+
+(* split_type branch: unequal node sizes are refused; key = rank; internode split with colour intrarank and key rank *)
+Theorem C14_gen_attach_split_type : forall mx mn ir r, attach_unequal mx mn = negb (mx =? mn) /\ attach_split_type_key r = r /\
+  attach_split_type_colour ir r = ir /\ attach_split_type_interkey ir r = r.
+Proof. exact gen_attach_split_type. Qed.
+Print Assumptions C14_gen_attach_split_type.
+
+(* sc_shmem_write_start_window returns 1 exactly for intrarank 0; it always unlocks and locks exactly then *)
+Theorem C14_gen_write_start_window : forall ir a c n1 n2 w u1 u2 u3, write_start_window ir a c n1 n2 w u1 u2 u3 = (b2z (ir =? 0), 1, b2z (ir =? 0)).
+Proof. exact gen_write_start_window. Qed.
+Print Assumptions C14_gen_write_start_window.
+
+(* the model's return value of sc_shmem_write_start = the generated value of the flavour, at intrarank = position of the rank in its node *)
+Theorem C14_gen_write_start : forall comms f r a c n1 n2 w u1 u2 u3, write_start comms f r =
+  match comms r with
+  | Some nc => if is_shared f
+               then z2b (fst (fst (write_start_window (zn (index_in r (intra nc))) a c n1 n2 w u1 u2 u3)))
+               else z2b write_start_basic
+  | None => z2b write_start_basic
+  end.
+Proof. exact gen_write_start. Qed.
+Print Assumptions C14_gen_write_start.
+
+(* the MPI calls the model lists for write_start are the ones the generated code makes *)
+Theorem C14_gen_calls_write_start : forall ir a c n1 n2 w u1 u2 u3, let '(ret, unl, lck) := write_start_window ir a c n1 n2 w u1 u2 u3 in
+  calls_write_start true (z2b ret) = (if unl =? 1 then [6%nat] else []) ++ (if lck =? 1 then [7%nat] else []).
+Proof. exact gen_calls_write_start. Qed.
+Print Assumptions C14_gen_calls_write_start.
+
+(* sc_shmem_write_end_window: only intrarank 0 unlocks; barrier on the intranode communicator; everybody locks *)
+Theorem C14_gen_write_end_window : forall ir a c n1 n2 w u1 u2 u3 u4, write_end_window ir a c n1 n2 w u1 u2 u3 u4 = (b2z (ir =? 0), 1, n1, 1).
+Proof. exact gen_write_end_window. Qed.
+Print Assumptions C14_gen_write_end_window.
+
+(* the MPI calls the model lists for write_end are the ones the generated code makes *)
+Theorem C14_gen_calls_write_end : forall ir a c n1 n2 w u1 u2 u3 u4, let '(unl, bar, _, lck) := write_end_window ir a c n1 n2 w u1 u2 u3 u4 in
+  calls_write_end true (ir =? 0) = (if unl =? 1 then [6%nat] else []) ++ (if bar =? 1 then [5%nat] else []) ++ (if lck =? 1 then [8%nat] else []).
+Proof. exact gen_calls_write_end. Qed.
+Print Assumptions C14_gen_calls_write_end.
+
+(* the node root, and nobody else, allocates the gather buffer *)
+Theorem C14_gen_is_root : forall ir, allgather_common_is_root ir = (ir =? 0) /\ prefix_common_is_root ir = (ir =? 0) /\ prefix_common_prescan_is_root ir = (ir =? 0).
+Proof. exact gen_is_root. Qed.
+Print Assumptions C14_gen_is_root.
+
+(* sc_scan_on_array: slot p, item c is at count * p + c, its predecessor at count * (p - 1) + c (all eight integer branches) *)
+Theorem C14_gen_scan_index : forall count p c, 0 <= count -> 1 <= p < B31 -> 0 <= c -> count * p + c < B31 ->
+  let d := count * p + c in let s := count * (p - 1) + c in
+  scan_dst_char count p c = d /\ scan_src_char count p c = s /\ scan_dst_short count p c = d /\ scan_src_short count p c = s /\
+  scan_dst_ushort count p c = d /\ scan_src_ushort count p c = s /\ scan_dst_int count p c = d /\ scan_src_int count p c = s /\
+  scan_dst_unsigned count p c = d /\ scan_src_unsigned count p c = s /\ scan_dst_long count p c = d /\ scan_src_long count p c = s /\
+  scan_dst_ulong count p c = d /\ scan_src_ulong count p c = s /\ scan_dst_longlong count p c = d /\ scan_src_longlong count p c = s.
+Proof. exact gen_scan_index. Qed.
+Print Assumptions C14_gen_scan_index.
+
+(* slot p += slot p - 1 wrapped to the element type = the model's vadd (wrap_of d) for int, unsigned, long, unsigned long, long long, for ALL values *)
+Theorem C14_gen_scan_add_wide : forall array count p c, 0 <= count -> 1 <= p < B31 -> 0 <= c -> count * p + c < B31 ->
+  let x := array (count * p + c) in let prev := array (count * (p - 1) + c) in
+  scan_add_int array count p c = wrap_of 3 (x + prev) /\ scan_add_unsigned array count p c = wrap_of 4 (x + prev) /\
+  scan_add_long array count p c = wrap_of 5 (x + prev) /\ scan_add_ulong array count p c = wrap_of 6 (x + prev) /\
+  scan_add_longlong array count p c = wrap_of 7 (x + prev).
+Proof. exact gen_scan_add_wide. Qed.
+Print Assumptions C14_gen_scan_add_wide.
+
+(* the same for char, short, unsigned short (operands promoted to int) *)
+Theorem C14_gen_scan_add_small : forall array count p c, 0 <= count -> 1 <= p < B31 -> 0 <= c -> count * p + c < B31 ->
+  (forall i, - 65536 <= array i < 65536) ->
+  let x := array (count * p + c) in let prev := array (count * (p - 1) + c) in
+  scan_add_char array count p c = wrap_of 0 (x + prev) /\ scan_add_short array count p c = wrap_of 1 (x + prev) /\
+  scan_add_ushort array count p c = wrap_of 2 (x + prev).
+Proof. exact gen_scan_add_small. Qed.
+Print Assumptions C14_gen_scan_add_small.
+
+(* the slots 1 .. size are summed up *)
+Theorem C14_gen_scan_slots : forall p size, scan_slot_first = 1 /\ scan_slot_cond p size = (p <=? size).
+Proof. exact gen_scan_slots. Qed.
+Print Assumptions C14_gen_scan_slots.
+
+(* basic / prescan prefix: `count` zero items in front (memset of count * typesize bytes), the gathered items behind them, counts of the collectives *)
+Theorem C14_gen_prefix_private : forall recvbuf ts count size, 0 <= ts < B31 -> zn count < B31 -> zn count * ts < B31 ->
+  prefix_basic_memset_arg2 ts (zn count) = zn (length (repeat 0 count)) * ts /\
+  prefix_basic_allgather_arg3 recvbuf ts (zn count) = recvbuf + zn (length (repeat 0 count)) * ts /\
+  prefix_basic_allgather_arg1 (zn count) = zn count /\ prefix_basic_allgather_arg4 (zn count) = zn count /\
+  (prefix_basic_scan_on_array_arg1 size, prefix_basic_scan_on_array_arg2 (zn count), prefix_basic_scan_on_array_arg3 ts) = (size, zn count, ts) /\
+  prefix_prescan_malloc_arg1 ts (zn count) = zn count * ts /\ prefix_prescan_scan_arg2 (zn count) = zn count /\
+  prefix_prescan_memset_arg2 ts (zn count) = zn (length (repeat 0 count)) * ts /\
+  prefix_prescan_allgather_arg3 recvbuf ts (zn count) = recvbuf + zn (length (repeat 0 count)) * ts /\
+  prefix_prescan_allgather_arg1 (zn count) = zn count /\ prefix_prescan_allgather_arg4 (zn count) = zn count.
+Proof. exact gen_prefix_private. Qed.
+Print Assumptions C14_gen_prefix_private.
+
+(* window flavours: the root's buffer and the blocks the roots exchange have the length of the node's gathered contributions (model: gather (intra nc)); offsets and counts as above *)
+Theorem C14_gen_prefix_window : forall recvbuf ts count (ms : list nat) (f : nat -> list Z) size, 0 <= ts < B31 -> zn count < B31 -> zn (length ms) * zn count * ts < B31 -> zn count * ts < B31 -> zn (length ms) * zn count < B31 ->
+  (forall q, In q ms -> length (f q) = count) ->
+  let isz := zn (length ms) in let blk := zn (length (gather ms f)) in
+  prefix_common_malloc_arg1 isz (zn count) ts = blk * ts /\
+  (prefix_common_gather_arg1 (zn count), prefix_common_gather_arg4 (zn count), prefix_common_gather_arg6) = (zn count, zn count, 0) /\
+  prefix_common_memset_arg2 (zn count) ts = zn (length (repeat 0 count)) * ts /\
+  prefix_common_allgather_arg3 recvbuf (zn count) ts = recvbuf + zn (length (repeat 0 count)) * ts /\
+  prefix_common_allgather_arg1 (zn count) isz = blk /\ prefix_common_allgather_arg4 (zn count) isz = blk /\
+  (prefix_common_scan_on_array_arg1 size, prefix_common_scan_on_array_arg2 (zn count), prefix_common_scan_on_array_arg3 ts) = (size, zn count, ts) /\
+  prefix_common_prescan_malloc1_arg1 ts (zn count) = zn count * ts /\ prefix_common_prescan_malloc2_arg1 isz (zn count) ts = blk * ts /\
+  prefix_common_prescan_scan_arg2 (zn count) = zn count /\
+  (prefix_common_prescan_gather_arg1 (zn count), prefix_common_prescan_gather_arg4 (zn count), prefix_common_prescan_gather_arg6) = (zn count, zn count, 0) /\
+  prefix_common_prescan_memset_arg2 (zn count) ts = zn (length (repeat 0 count)) * ts /\
+  prefix_common_prescan_allgather_arg3 recvbuf (zn count) ts = recvbuf + zn (length (repeat 0 count)) * ts /\
+  prefix_common_prescan_allgather_arg1 (zn count) isz = blk /\ prefix_common_prescan_allgather_arg4 (zn count) isz = blk /\
+  allgather_common_malloc_arg1 isz (zn count) ts = blk * ts /\
+  (allgather_common_gather_arg1 (zn count), allgather_common_gather_arg4 (zn count), allgather_common_gather_arg6) = (zn count, zn count, 0) /\
+  allgather_common_allgather_arg1 (zn count) isz = blk /\ allgather_common_allgather_arg4 (zn count) isz = blk.
+Proof. exact gen_prefix_window. Qed.
+Print Assumptions C14_gen_prefix_window.
